@@ -1055,6 +1055,10 @@ class Document:
         :param paste_mode: Where to paste. (Before/after/emacs.)
         :param count: When >1, Paste multiple times.
         """
+        if count < 1:
+            # Nothing to paste (a zero or negative repeat count).
+            return Document(self.text, self.cursor_position)
+
         before = paste_mode == PasteMode.VI_BEFORE
         after = paste_mode == PasteMode.VI_AFTER
 
